@@ -550,9 +550,19 @@ def case_isolation(case, col=None):
         battery = [("convert", 1, "bar", "xm"), ("root", "kilafoo"), ("base", "spd"), ("compat", "xm", None), ("parse_expr", "3 foo / baz"), ("format", 3, "bar", "~P"),
                    ("members", "ga", "group"), ("members", "sysx", "system"), ("parse_units", "newu"), ("dim", "spd"), ("compact", 5000, "foo")]
         before = [ask(first, q) for q in battery]
-        second = build(LINES, State())
+        # the second registry is built later, from other definitions of the same names (every unit factor tripled), or from the same text
+        import re as _re
+
+        other_lines = [_re.sub(r"^(\s*\w+ = )(\d+)( \* .*)$", lambda m_: f"{m_.group(1)}{int(m_.group(2)) * 3}{m_.group(3)}", l_) for l_ in LINES] if case.get("decoy", True) else LINES
+        second = build(other_lines, State())
         for act in case["acts"]:
-            if act == "define":
+            if act == "first_switch":
+                # the first registry enters and leaves a context (rules only; with a redefinition): whatever it switches to is its own
+                first.enable_contexts("ca")
+                first.disable_contexts()
+                first.enable_contexts("cr")
+                first.disable_contexts()
+            elif act == "define":
                 second.define("newu = 100 * xm")
             elif act == "context":
                 second.enable_contexts("cr")
@@ -574,7 +584,7 @@ def case_isolation(case, col=None):
 
 
 def run_isolation(task, tier, seed, col):
-    strat = st.lists(st.sampled_from(["define", "context", "system", "group", "queries", "format"]), min_size=1, max_size=6).map(lambda a: {"acts": a})
+    strat = st.tuples(st.lists(st.sampled_from(["define", "context", "system", "group", "queries", "format", "first_switch", "first_switch"]), min_size=1, max_size=6), st.booleans()).map(lambda t: {"acts": t[0], "decoy": t[1]})
     hyp_search(col, strat, lambda c: case_isolation(c, col), max_examples=60 if tier == "quick" else 1000, seed=seed * 227)
 
 
